@@ -2,7 +2,7 @@
 
    d hostMAC routerMAC lanAddr lanBits frameHex spareHex
      model column: the projection C02 constrains, as Session.Parse + accessors produce it:
-                   "err:any" | "panic" | "ok id smac sip sport dmac dip dport E:off,len 4:.. 6:.. U:.. T:.. P:.. H:b"
+                   "err:EFrameLen" | "err:EParseFrame" | "panic" | "ok id smac sip sport dmac dip dport E:off,len 4:.. 6:.. U:.. T:.. P:.. H:b"
      spec column:  the same line as the reference decoder (Spec/RFC.v) expects it for the bytes within the length
    table KIND (payloadid | ethertype | ipproto | udpports)
      model column: the model's classification table (the lists the model is defined from) in canonical text
